@@ -81,7 +81,7 @@ Fixpoint literal_value (n : node) : res pyval :=
         (fix addall (l : list pyval) (acc : list pyval) : res pyval :=
            match l with
            | [] => Ok (PSet acc)
-           | v :: l' => if hashable v then addall l' (set_add_val v acc) else Raise TypeError
+           | v :: l' => if hashable v then addall l' (set_add_val v acc) else addall l' acc   (* unhashable: skipped *)
            end) l []
       else if String.eqb c "Dict" then
         Ok (PDict (combine (items (match lookup_field "keys" fs with Some k => k | None => NNone end))
